@@ -291,9 +291,21 @@ def run_batch(w, base, batch, acc, n0):
         raise RuntimeError("consult failed: " + H.strip_warnings(out))
     goals = [assert_goal(p, p["suf"]) for p in batch]
     rs = px.run_goals(w, goals)
+    built = []
     for p, r in zip(batch, rs):
         if r.status != "done" or len(r.sols) != 1:
-            raise RuntimeError("assert step failed for %s: %r" % (C07.program_text(p), r))
+            # the build step is itself a meta-called conjunction of assertz/asserta goals that must
+            # succeed exactly once: anything else is a violation of the property (statement: call/1
+            # of a goal behaves as the goal), not a harness failure
+            n_goals = 2 * len(p["clauses"])
+            what = r.abn or (px.formal_sig(r.formal()) if r.status == "exc" else
+                             "%s with %d solutions" % (r.status, len(r.sols)))
+            acc.case(True, "build_failed")
+            acc.violation("build: call/1 of a conjunction of %d assertz/asserta goals: %s" % (n_goals, what),
+                          C07.case_of(p, 0), expected="succeeds once", observed=repr(r))
+            continue
+        built.append(p)
+    batch = built
     goals = []
     for p in batch:
         p["cutfree"] = "cut" not in p["feat"]
